@@ -135,6 +135,27 @@ pub fn run_jsonin(t: &mut Toks) -> Option<String> {
     Some(match serde_json::from_str::<E>(&s) { Ok(e) => format!("ok {}", show_expr_out(&e)), Err(_) => "err".into() })
 }
 
+/// JSON text as ANOTHER system would write the same document: floats that are whole numbers as integer tokens, exponent spellings, and
+/// integer tokens at the limits of i64 / u64 and beyond
+pub fn respell_numbers(r: &mut Rng, text: &str) -> String {
+    const EDGE: &[&str] = &["-9223372036854775808", "9223372036854775807", "18446744073709551615", "18446744073709551616", "-9223372036854775809", "9007199254740993", "-9007199254740993",
+        "-0", "0", "1e400", "-1e400", "1E3", "1e-400", "0.1e1", "123456789012345678901234567890", "-1", "4294967296", "2147483648", "-2147483649"];
+    let b: Vec<char> = text.chars().collect(); let mut out = String::new(); let mut i = 0; let mut in_str = false;
+    while i < b.len() {
+        let c = b[i];
+        if in_str { out.push(c); if c == '\\' && i + 1 < b.len() { out.push(b[i + 1]); i += 1; } else if c == '"' { in_str = false; } i += 1; continue; }
+        if c == '"' { in_str = true; out.push(c); i += 1; continue; }
+        if c == '-' || c.is_ascii_digit() {
+            let mut j = i; while j < b.len() && (b[j].is_ascii_digit() || matches!(b[j], '-' | '+' | '.' | 'e' | 'E')) { j += 1; }
+            let tok: String = b[i..j].iter().collect();
+            out.push_str(&match r.below(6) { 0 => (*r.pick(EDGE)).to_string(), 1 | 2 => tok.strip_suffix(".0").map(|x| x.to_string()).unwrap_or(tok), 3 => tok.replace("e", "E"), _ => tok });
+            i = j; continue;
+        }
+        out.push(c); i += 1;
+    }
+    out
+}
+
 // ---------------------------------------------------------------- generators
 pub fn gen_opt_tree(r: &mut Rng, depth: u32, ill: bool) -> E {
     // trees that mix foldable (all-literal) sub-trees with variables and pure/impure calls
